@@ -88,6 +88,30 @@ fn obs_stream(h: &StreamH, last: &OpObs) -> Obs {
 }
 
 pub fn explore(ctx: &Ctx, x: &[u8], opts: &Opts, mode: &Mode, label: &str) -> GraphStats {
+    explore_from(ctx, x, opts, mode, label, &[])
+}
+
+/// History that feeds `x[..p]` like `write_all` would (re-offering what a write did not consume).
+pub fn write_all_history(x: &[u8], opts: &Opts, p: usize) -> Vec<u32> {
+    let mut h = StreamH::new(opts, &Sk::default());
+    let mut off = 0usize;
+    let mut hist = Vec::new();
+    while off < p {
+        let k = p - off;
+        let r = h.apply(&SOp::Write(Hex(x[off..p].to_vec())));
+        hist.push(k as u32);
+        match (&r.v, r.n) {
+            (V::Ok, Some(c)) if c > 0 => off += c as usize,
+            _ => break,
+        }
+    }
+    hist
+}
+
+/// Like `explore`, but the exploration starts from the state reached by `init` (a fixed way of presenting a
+/// prefix of the input); from there on every slice length is explored. Used for long streams whose interesting
+/// region is the tail.
+pub fn explore_from(ctx: &Ctx, x: &[u8], opts: &Opts, mode: &Mode, label: &str, init: &[u32]) -> GraphStats {
     let n = x.len();
     let mut gs = GraphStats::default();
     let (v1, out1, _) = dec_plain(Fmt::Lzma, opts, x);
@@ -115,11 +139,11 @@ pub fn explore(ctx: &Ctx, x: &[u8], opts: &Opts, mode: &Mode, label: &str) -> Gr
     let mut q: VecDeque<usize> = VecDeque::new();
     let mut per_offset: HashMap<usize, u64> = HashMap::new();
     {
-        let (h, _, _) = replay(x, opts, &[]);
-        seen.insert((0, h.fingerprint(false)), (0, h.fingerprint(true)));
-        nodes.push(Node { hist: vec![], offset: 0, failed: false });
+        let (h, off, _) = replay(x, opts, init);
+        seen.insert((off, h.fingerprint(false)), (0, h.fingerprint(true)));
+        nodes.push(Node { hist: init.to_vec(), offset: off, failed: false });
         q.push_back(0);
-        *per_offset.entry(0).or_default() += 1;
+        *per_offset.entry(off).or_default() += 1;
     }
     let viol = |hist: &[u32], extra: &[SOp], expected: String, h: &StreamH, last: &OpObs| {
         ctx.violation(&case_of(x, opts, hist, extra), &format!("{}: {}", label, expected), &obs_stream(h, last), None);
